@@ -29,7 +29,9 @@ EXPLANATION = (
     ' '
     'R-C14.6 DatabaseState.clone() copies _tables at least as deep as add_table() nests mutable containers (depth read from the code on both sides).'
     ' '
-    'R-C14.7 the published app_sig_is_new flag is the decision prepare() itself used (reaching definitions of its operands are the original lookup).')
+    'R-C14.7 the published app_sig_is_new flag is the decision prepare() itself used (reaching definitions of its operands are the original lookup).'
+    ' '
+    'R-C14.8 the stored version is read only through VersionManager.current_version().')
 NOT_DECIDED = (
     'Statement-by-statement equality of preview and execution for every '
     'upgrade, and byte-identical output across hash seeds (needs execution '
@@ -656,7 +658,44 @@ def r7_published_new_app_flag_is_the_one_used(ctx):
     ctx.floor('stores of self.app_sig_is_new in prepare()', n, 1)
 
 
+def r8_stored_version_through_the_manager(ctx):
+    """Which Version row is "the stored signature" is defined once, by
+    VersionManager.current_version() (newest `when`, ties broken by id).
+    The preview pass and the execution pass must read it through that
+    method: an ad-hoc query (`.latest('when')`, `order_by(...)[0]`) breaks
+    ties differently, so with two versions saved in the same second the
+    preview filters the pending mutations against another signature than
+    the execution does."""
+    ctx.rule('R-C14.8')
+    p = ctx.program
+    n_cur, hit = 0, False
+    for m in p.modules.values():
+        for f in m.all_funcs():
+            if f.cls is not None and f.cls.name == 'VersionManager':
+                continue
+            for c in walk_no_nested(f.node, include_lambda=True):
+                if not isinstance(c, ast.Call):
+                    continue
+                if call_name(c) == 'current_version':
+                    n_cur += 1
+                if call_name(c) in ('latest', 'earliest', 'first', 'last') \
+                        and 'Version.objects' in unparse(c.func):
+                    hit = True
+                    ctx.finding(f, c, '%s picks the stored version with %s '
+                                'instead of VersionManager.current_version(): '
+                                'for versions saved with the same timestamp '
+                                'it returns a different row' % (
+                                    f.qualname,
+                                    ' '.join(unparse(c).split())),
+                                key='version-picked-ad-hoc')
+    ctx.floor('readers of the current stored version', n_cur, 3)
+    if not hit:
+        ctx.ok(('django_evolution.models', 'VersionManager'), 'the stored '
+               'version is always read through current_version()')
+
+
 def run(ctx):
+    r8_stored_version_through_the_manager(ctx)
     r7_published_new_app_flag_is_the_one_used(ctx)
     r6_state_clone_shares_nothing(ctx)
     r5_task_sql_execution_depends_only_on_sql(ctx)
